@@ -69,8 +69,8 @@ CLAIMED = {
 
 SEQ = " Operation sequences: ALL ordered pairs of a call alphabet built from one small value set used in every argument role (and all ordered triples / quadruples of sub-alphabets) are executed as one history on one thread; every result must be bit-identical to the same call made alone in a fresh thread (history independence: memos, caches, scratch state). A final free-running 8-thread stress over the same alphabet is a labelled, non-exhaustive corroboration only."
 ADDED = {
- "C01": " Later additions: Fibonacci-lattice generic positions." + SEQ,
- "C02": SEQ,
+ "C01": " Later additions: Fibonacci-lattice generic positions; exponent sweep around the critical latitudes / meridians; every half turn of longitude in the stated domain; integer degrees; float literals of the current sources as coordinates and centres of cells whose (i, j) are integer literals of the sources." + SEQ,
+ "C02": " Later additions: exponent sweep, every half turn of longitude, integer degrees, source-literal positions (as C01)." + SEQ,
  "C03": " Later additions: vertices_map on all 16 direction sets, path_along_cell_side on every (from, to, include) combination, carry-chain cells (coordinates 2^k-1, 2^k, 10 1..1 for every k) at every depth." + SEQ,
  "C04": " Later additions: carry-chain cells (full cross product of the coordinates 2^k-1, 2^k, 10 1..1 in every base cell) and 32 spread interior cells per base cell at every depth." + SEQ,
  "C05": " Later additions: radius-relative centres, centres at the narrowest cells of the start depth (exhaustive search), deep-large (1e4..1e5 cells) and deep-huge (radius / cell > 5e4, ~1e6 cells) strata. The former known finding KF-1 is repaired (fix f1d7abd) and no longer consulted." + SEQ,
@@ -85,10 +85,10 @@ ADDED = {
  "C14": " Later additions: delta_depth 5, 8, 9, 13, 17 and a sweep of every delta_depth 4..12 / 16; carry-chain cells; the two public direction helpers of lib.rs checked directly and exhaustively on every border cell x outward neighbour." + SEQ,
  "C15": " Later additions: bulk pushes (~9000), one-tile sets, re-push SIZE SWEEP (a whole tile then every n = 1..340 / 4200 of its cells again), merge-cascade sequences (every cascade length 1..29).",
  "C16": " Later additions: claim-2 radii up to pi; claim 3 at the NARROWEST cells of depths 0..6 / 0..8 located by exhaustive search; carry-chain cells. KF-1 repaired (fix f1d7abd)." + SEQ,
- "C17": SEQ,
- "C18": SEQ,
+ "C17": " Later additions: exponent sweep (sphere and plane), integer degrees, float literals of the sources." + SEQ,
+ "C18": " Later additions: all ordered pairs of coordinates taken from the integer literals of the current sources; every pair of values of a 12-bit window at the same offset in i and j." + SEQ,
  "C19": " Later additions: weighted mean checked for every position (grid coordinates from the reference projection), carry-chain cells." + SEQ,
- "C20": " Later additions: mutual-exclusion probe (a thread held inside the constructor, a free-running second caller must block).",
+ "C20": " Later additions: mutual-exclusion probe (a thread held inside the constructor / at the end of the initialisation closure, a free-running second caller must block); a SAMPLED first-use stress in fresh processes (15 free-running threads, labelled non-exhaustive: corroboration for hook-free windows only).",
 }
 
 for k, v in ADDED.items():
